@@ -42,6 +42,9 @@ type execSpec struct {
 	Role     string `json:"role"`      // holder: parks in the function on a gate | burst: returns at once | waiter: submitted while the bulkhead is full
 	FailN    int    `json:"fail_n"`    // the first n invocations of this execution return errX
 	CancelMe bool   `json:"cancel_me"` // an action cancels this execution's context (while it waits for a permit or holds one)
+	// DeadlineUs: the execution's context carries a deadline this many microseconds after submission (it expires while the
+	// execution waits for a permit, or holds one)
+	DeadlineUs int `json:"deadline_us,omitempty"`
 }
 
 type scenario struct {
@@ -157,6 +160,11 @@ func run(sc scenario) (out runOut) {
 		st := states[i]
 		ctx, cancel := context.WithCancel(context.Background())
 		st.cancel = cancel
+		if st.spec.DeadlineUs > 0 {
+			var c2 context.CancelFunc
+			ctx, c2 = context.WithTimeout(ctx, time.Duration(st.spec.DeadlineUs)*time.Microsecond)
+			_ = c2 // released through the parent's cancel at the end of the scenario
+		}
 		var pols []failsafe.Policy[int]
 		rp := retrypolicy.Builder[int]().WithMaxRetries(2).HandleErrors(errX).ReturnLastFailure().Build()
 		switch st.spec.Wrapper {
@@ -288,7 +296,8 @@ func run(sc scenario) (out runOut) {
 	}
 	for i, st := range states {
 		e := st.err
-		known := e == nil || e == errX || errors.Is(e, bulkhead.ErrFull) || errors.Is(e, context.Canceled) || errors.Is(e, timeout.ErrExceeded)
+		known := e == nil || e == errX || errors.Is(e, bulkhead.ErrFull) || errors.Is(e, context.Canceled) || errors.Is(e, timeout.ErrExceeded) ||
+			(st.spec.DeadlineUs > 0 && errors.Is(e, context.DeadlineExceeded))
 		if !known {
 			return fail("unexpected-error", "execution %d (%+v) returned (%d,%v)", i, st.spec, st.val, e)
 		}
@@ -396,9 +405,12 @@ func run(sc scenario) (out runOut) {
 func genScenario(t *rapid.T) scenario {
 	sc := scenario{Max: rapid.IntRange(1, 8).Draw(t, "max")}
 	if rapid.Bool().Draw(t, "smallMax") {
-		sc.Max = rapid.IntRange(1, 2).Draw(t, "maxSmall")
+		sc.Max = rapid.IntRange(0, 2).Draw(t, "maxSmall") // 0: a bulkhead that admits nothing
 	}
 	sc.MaxWait = rapid.SampledFrom([]string{"0", "1ms", "50ms", "1h", "1h"}).Draw(t, "maxWait")
+	if sc.Max == 0 && sc.MaxWait == "1h" {
+		sc.MaxWait = "1ms" // nobody would ever be let in: an hour of patience would only end by cancellation
+	}
 	sc.Standalone = rapid.IntRange(0, sc.Max).Draw(t, "standalone")
 	if rapid.Bool().Draw(t, "noStandalone") {
 		sc.Standalone = 0
@@ -416,6 +428,9 @@ func genScenario(t *rapid.T) scenario {
 			FailN:   rapid.SampledFrom([]int{0, 0, 1, 5}).Draw(t, "failN"),
 		}
 		sp.CancelMe = rapid.IntRange(0, 3).Draw(t, "cancelMe") == 0
+		if rapid.IntRange(0, 5).Draw(t, "deadline") == 0 {
+			sp.DeadlineUs = rapid.SampledFrom([]int{1, 100, 600, 2000}).Draw(t, "deadlineUs")
+		}
 		if sp.Wrapper == "timeout-fires" || sp.Wrapper == "hedge" || sp.Wrapper == "inner-full" {
 			if sp.Role == "holder" {
 				sp.Role = "burst" // these wrappers end by themselves
